@@ -219,6 +219,77 @@ def gen_seq(rng, n, combos):
     return calls
 
 
+def gen_held_seq(rng, nblocks):
+    """API histories interleaved with a tagging job in flight: the table is settled, the next tagging job is
+    parked at tag.start / tag.done, the call that starts it runs, then calls on that tag and on tags around it
+    (delete + re-create with the same definition, referrers added / removed, rename, colour, converters, query),
+    then the job is released."""
+    calls, sim = [], {}          # sim: name -> definition
+    plain = ["sport:80", "cport:1", "cport:2,3", "protocol:udp", "sport:4321 cport:1"]
+
+    def refdef(x):
+        typ, sub = x.split("/", 1)
+        return rng.choice(["%s:%s" % (typ, sub), "%s:%s sport:80" % (typ, sub), "@s:%s:%s cport:@s:cport@" % (typ, sub), "-%s:%s" % (typ, sub)])
+    names = ["tag/a", "tag/b", "tag/c", "tag/d", "service/s"]
+    for _ in range(rng.choice([0, 1, 2])):
+        nm = rng.choice(names)
+        if nm not in sim:
+            sim[nm] = rng.choice(plain)
+            calls.append({"op": "add", "name": nm, "color": "red", "def": sim[nm]})
+    for _ in range(nblocks):
+        calls.append({"op": "settle", "name": ""})
+        calls.append({"op": "hold", "name": "", "point": rng.choice(["tag.done", "tag.done", "tag.start"])})
+        free = [n for n in names if n not in sim]
+        if free and (not sim or rng.random() < 0.6):
+            x = rng.choice(free)
+            sim[x] = rng.choice(plain) if rng.random() < 0.7 or not sim else refdef(rng.choice(sorted(sim)))
+            calls.append({"op": "add", "name": x, "color": "red", "def": sim[x]})
+        else:
+            x = rng.choice(sorted(sim))
+            sim[x] = rng.choice(plain)
+            calls.append({"op": "upd", "name": x, "query": sim[x]})
+        calls.append({"op": "jobmark", "name": x})
+        xdef = sim[x]
+        for _ in range(rng.choice([2, 3, 4, 6])):
+            r = rng.random()
+            others = [n for n in names if n != x]
+            if r < 0.25:
+                calls.append({"op": "del", "name": x})
+                if not any(x in refs_of_def(d) for k, d in sim.items() if k != x):
+                    sim.pop(x, None)
+            elif r < 0.50:
+                d = xdef if rng.random() < 0.8 else rng.choice(plain)
+                calls.append({"op": "add", "name": x, "color": rng.choice(["red", "blue"]), "def": d})
+                sim.setdefault(x, d)
+            elif r < 0.72:
+                y = rng.choice(others)
+                d = refdef(x)
+                calls.append({"op": "add", "name": y, "color": "red", "def": d})
+                if y not in sim and x in sim:
+                    sim[y] = d
+            elif r < 0.80:
+                y = rng.choice(others)
+                calls.append({"op": "del", "name": y})
+                if not any(y in refs_of_def(d) for k, d in sim.items() if k != y):
+                    sim.pop(y, None)
+            elif r < 0.86:
+                calls.append({"op": "upd", "name": x, "newname": x.split("/")[0] + "/" + rng.choice("xyz")})
+            elif r < 0.92:
+                calls.append({"op": "upd", "name": x, "color": rng.choice(["green", "black"])})
+            elif r < 0.96:
+                calls.append({"op": "upd", "name": x, "conv": rng.choice([["ca"], [], ["ca", "cb"]])})
+            else:
+                calls.append({"op": "upd", "name": x, "query": rng.choice(plain + [xdef])})
+        calls.append({"op": "release", "name": ""})
+        if rng.random() < 0.5:
+            # the protected tag must still be protected
+            calls.append({"op": "del", "name": x})
+            if not any(x in refs_of_def(d) for k, d in sim.items() if k != x):
+                sim.pop(x, None)
+    calls.append({"op": "settle", "name": ""})
+    return calls
+
+
 def is_combo(c):
     if c["op"] in ("breakstate", "fixstate"):
         return True        # fault injection: replay only, not modelled
@@ -231,7 +302,8 @@ def is_combo(c):
 
 def norm_call(c):
     d = {"op": c["op"], "name": c.get("name", ""), "color": c.get("color", ""), "def": c.get("def", ""), "newname": c.get("newname", ""),
-         "query": c.get("query"), "conv": c.get("conv"), "markadd": c.get("markadd") or [], "markdel": c.get("markdel") or []}
+         "query": c.get("query"), "conv": c.get("conv"), "markadd": c.get("markadd") or [], "markdel": c.get("markdel") or [],
+         "point": c.get("point", "")}
     return d
 
 
@@ -430,8 +502,9 @@ def effect_ok(c, prev, cur, settle):
     """The change a successful call must have made (None = fine, else text)."""
     nm = c["name"]
     want = {k: dict(v) for k, v in prev.items()}
-    if c["op"] in ("breakstate", "fixstate", "restart"):
-        pass        # (restart: Close + New on the same directories must bring back the same table)
+    if c["op"] in ("breakstate", "fixstate", "restart", "settle", "hold", "jobmark", "release"):
+        pass        # (restart: Close + New on the same directories must bring back the same table; a tagging job
+        #  that starts, is held or completes changes nothing of what is compared in a racing sequence)
     elif c["op"] == "add":
         if nm in prev:
             return "the tag existed before"
@@ -499,6 +572,8 @@ def model_text(seq, impl, orig=False):
     """Case text for the model driver; the parse table comes from the harness (real query.Parse)."""
     out = ["S %d %d %s %s" % (seq["id"], NEXT, lst(CONVS, hx), "orig" if orig else "fixed")]
     parses = {ln["i"]: ln.get("parse") for ln in impl["lines"] if ln["phase"] == "begin"}
+    ends = {ln["i"]: ln for ln in impl["lines"] if ln["phase"] == "end"}
+    held_now = False
     n = 0
     for i, c in enumerate(seq["calls"]):
         c = norm_call(c)
@@ -509,7 +584,15 @@ def model_text(seq, impl, orig=False):
         if p is not None:
             out.append("P %s %d %d %d %d %d %s %s %s" % (hx(d), p["err"], (p["mf"] | p["sf"]) & 0x80 != 0, (p["mf"] | p["sf"]) & 0x20 != 0,
                                                        p["grouping"], p["idsok"], lst(p["main"], hx), lst(p["sub"], hx), lst(p["ids"])))
-        if c["op"] == "restart":
+        if c["op"] == "jobmark":
+            # the job started inside the previous call, if the harness saw it parked
+            prev_end = ends.get(i - 1) or {}
+            held_now = bool(prev_end.get("held"))
+            out.append("JS %s" % hx(c["name"]) if held_now else "N")
+        elif c["op"] == "release":
+            out.append("JD" if held_now else "N")
+            held_now = False
+        elif c["op"] in ("restart", "settle", "hold"):
             out.append("N")
         elif c["op"] == "add":
             out.append("A %s %s %s" % (hx(c["name"]), hx(c["color"]), hx(c["def"])))
@@ -609,7 +692,10 @@ def main(tier, seed, replay=None):
         for k in range(nseq):
             combos = k % 5 == 4
             n = rng.choice([6, 12, 20, 30]) if k % 7 else 60
-            seqs.append({"settle": k % 3 != 2, "calls": gen_seq(rng, n, combos)})
+            if k % 6 == 5:
+                seqs.append({"settle": False, "calls": gen_held_seq(rng, rng.choice([1, 2, 3]))})
+            else:
+                seqs.append({"settle": k % 3 != 2, "calls": gen_seq(rng, n, combos)})
     for k, s in enumerate(seqs):
         s["id"] = k
     impls, note = run_impl(seqs, "main", timeout=900 if tier == "quick" else 7200)
@@ -688,6 +774,7 @@ def main(tier, seed, replay=None):
         for c in s["calls"]:
             k = c["op"] if c["op"] != "upd" else "upd:" + "+".join(x for x in ("color", "query", "newname", "conv", "markadd", "markdel") if c.get(x) not in (None, "", []))
             ops[k] = ops.get(k, 0) + 1
+    held = [ln.get("held") for s in seqs for ln in impls.get(s["id"], {"lines": []})["lines"] if ln["phase"] == "end" and "held" in ln]
     distinct = {json.dumps(s["calls"], sort_keys=True) for s in seqs if len(s["calls"]) >= 3}
     maxtags = max([len(ln.get("tags") or []) for s in seqs for ln in impls.get(s["id"], {"lines": []})["lines"]] or [0])
     cov = proof.coverage()
@@ -699,9 +786,10 @@ def main(tier, seed, replay=None):
             "map iteration order of Go is fixed to table order in the model (inheritTagUncertainty, referencedTags)"],
         "evaluations": ncalls,
         "distinct_nontrivial": len(distinct),
-        "rule": "seeded call sequences (6-60 calls) on a fresh Manager with 4 streams and 3 converters; names from valid/invalid pools, definitions: plain, id-only, referencing existing/missing/own tags, sub-query references, unparsable, relative time, grouping; stream ids in and out of range; 2/3 of the sequences wait for quiescence after every call (matches compared), 1/3 race with the tagging jobs; 1/5 contain multi-operation updates (oracle only). non-trivial = >=3 calls, distinct by call list",
+        "rule": "seeded call sequences (6-60 calls) on a fresh Manager with 4 streams and 3 converters; names from valid/invalid pools, definitions: plain, id-only, referencing existing/missing/own tags, sub-query references, unparsable, relative time, grouping; stream ids in and out of range; 2/3 of the sequences wait for quiescence after every call (matches compared), 1/3 race with the tagging jobs; 1/5 contain multi-operation updates (oracle only); 1/6 of the sequences hold a tagging job at tag.start / tag.done across API calls on its tag and its referrers (delete + re-create with the same definition, referrers added, rename ...) and release it; 5 % restart actions. non-trivial = >=3 calls, distinct by call list",
         "sequences": len(seqs), "sequences_vs_model": len(modelable), "results": res_count, "error_kinds": kinds, "op_distribution": ops,
         "max_tags_in_table": maxtags, "disagreements_examined": examined,
+        "tagging_jobs_held_across_calls": sum(1 for h in held if h), "hold_requests_without_job": sum(1 for h in held if not h),
         "samples": [seqs[-1]["calls"][:6]] if seqs else [],
     })
     known, fixed = known_findings(PROP)
